@@ -176,6 +176,9 @@ func (wk *walker) run(e *Edge) (ms []Mismatch, skipped bool) {
 	if e.Port == "tick" {
 		return nil, true
 	}
+	if _, served := wk.st.Socks[e.Port]; !served && e.Port != "evict" {
+		return nil, true // this deployment shape has no such port
+	}
 	if wk.o.Proto == "text" && (c.Op == "gat" || c.Op == "gete") {
 		return nil, true
 	}
